@@ -767,6 +767,9 @@ def krylov(model, sfield, efield, var):
         i = -1  # Mark it as error; returned field is all zero.
         var.exit_message += " (returned field is zero)"
 
+    # Error of the returned field (the solver may exit between callbacks).
+    var.l2 = residual(model, sfield, efield, True)
+
     # Convergence-checks for sslsolver.
     if var.verb == 3:
         pre = 50*" " + "\r"
